@@ -3,6 +3,7 @@ import RV.C14.SkolemLemmas
 import RV.C14.CanonLemmas
 import RV.C14.SearchLemmas
 import RV.C14.RefineLemmas
+import RV.C14.RefineEquiv
 /-
   C14 — property statements and theorems.
 
@@ -265,6 +266,42 @@ theorem refineInit_runs : Statement_refineInit_runs := by
 /-- non-vacuity: on the directed path 1→2→3 the loop separates all three nodes (and needs more than one iteration) -/
 example : refinePartition [(b 1, p, b 2), (b 2, p, b 3)] = [[3], [1], [2]] := by decide
 example : refinePartition [(b 1, p, b 2), (b 2, p, b 3), (b 3, p, b 1)] = [[1, 2, 3]] := by decide
+
+/-- the whole `_refine` computation is EQUIVARIANT under blank-node renaming, for arbitrary hash functions: for `σ`
+    injective on the blank nodes of `g` (no blank predicates), running `_refine` on the renamed graph from the renamed
+    colouring and sequence gives exactly the renamed result — the same cells in the same order with the same colour
+    tuples and hashes; in particular for the call of `canonical_triples` (`refineInit`, which includes `_initial_color`).
+    (What is NOT covered: that the result does not depend on the iteration order of Python's sets and of the store —
+    `refine_equivariant` shows it for one `distinguish` round, `canonSearch_equivariant` for the exhaustive search.) -/
+def Statement_refine_rename_equivariant : Prop :=
+  ∀ (H : List Item → Nat) (HT : Term → Nat) (σ : Nat → Nat) (g : Graph), InjOn σ (bnodes g) → NoBlankPred g →
+    (∀ (fuel : Nat) (P S : List Color), InG g P → InG g S →
+      refine H HT (g.rename σ) fuel (P.map (mapColor (Term.rename σ))) (S.map (mapColor (Term.rename σ))) =
+        (refine H HT g fuel P S).map (mapColor (Term.rename σ))) ∧
+    refineInit H HT (g.rename σ) = (refineInit H HT g).map (mapColor (Term.rename σ))
+
+/-- `canon_complete`, PARTIAL, for rdflib's own canonicaliser on the path without search: if the initial refinement
+    already separates all blank nodes of `g` (every blank node is the first member of a colour, i.e. `_discrete`), the
+    canonical triples do not depend on the blank-node labels: `canonical_triples(σ g) = canonical_triples(g)` for every
+    injective relabelling `σ`, as lists.  Exact hypothesis: `h` is `g.rename σ` (same triple order) and refinement
+    reaches a discrete colouring; the general `Statement_canon_complete` stays open. -/
+def Statement_canon_complete_partial : Prop :=
+  ∀ (H : List Item → Nat) (HT : Term → Nat) (σ : Nat → Nat) (g : Graph), InjOn σ (bnodes g) → NoBlankPred g →
+    (∀ a ∈ bnodes g, ∃ c ∈ refineInit H HT g, ∃ rest, c.nodes = ⟨true, a⟩ :: rest) →
+    canonRefine H HT (g.rename σ) = canonRefine H HT g
+
+theorem refine_rename_equivariant : Statement_refine_rename_equivariant :=
+  fun H HT _ _ hinj hp =>
+    ⟨fun fuel P S hP hS => refine_rename hinj hp H HT fuel P S hP hS, refineInit_rename hinj hp H HT⟩
+
+theorem canon_complete_partial : Statement_canon_complete_partial :=
+  fun H HT _ _ hinj hp hcov => canonRefine_rename hinj hp H HT (fun a ha => keys_canonLabels (hcov a ha))
+
+/-- non-vacuity: the path 1→2→3 is refined to a discrete colouring, and relabelling it (1,2,3 ↦ 7,5,9) gives literally
+    the same canonical triples -/
+example : refineDiscrete sumHash termHash [(b 1, p, b 2), (b 2, p, b 3)] = true := by decide +kernel
+example : canonRefine sumHash termHash [(b 7, p, b 5), (b 5, p, b 9)] =
+    canonRefine sumHash termHash [(b 1, p, b 2), (b 2, p, b 3)] := by decide +kernel
 
 /-! ## The exhaustive individualisation–refinement search `canonSearch` (RV/C14/Search.lean)
 
